@@ -40,3 +40,248 @@ pub fn selftest_fail<S: Src, const N: usize>(s: &mut S) {
     check!(s, got != Some(7) || q.1 != 3, "SELFTEST:deliberately-false");
     std::mem::forget(map);
 }
+
+/// the arena is unchanged except (optionally) the value of slot `z`
+pub fn unchanged_except<S: Src, const N: usize>(
+    s: &mut S,
+    map: &prefix_trie::PrefixMap<P, u8>,
+    nodes: &[Raw; N],
+    z: Option<(usize, u8)>,
+) -> bool {
+    let (post, len) = readback::<N>(map);
+    let mut ok = len == N && map.__verif_free().len() == 0;
+    let mut i = 0;
+    while i < N {
+        let mut exp = nodes[i];
+        if let Some((zi, w)) = z {
+            if zi == i {
+                exp.1 = Some(w);
+            }
+        }
+        ok = ok && post[i] == exp;
+        i += 1;
+    }
+    ok
+}
+
+/// C01/C13: get_mut returns the value slot of the stored key; a write lands exactly there
+pub fn get_mut<S: Src, const N: usize>(s: &mut S) {
+    let (nodes, r) = pre::<S, N>(s);
+    let mut map = mk_map_simple(&nodes, &r);
+    let q = any_p(s);
+    let w = s.u8();
+    let exp = lookup(&nodes, &r, &q);
+    let mut addr: *const u8 = std::ptr::null();
+    match map.get_mut(&q) {
+        Some(v) => {
+            check!(s, exp.is_some() && Some(*v) == nodes[exp.unwrap_or(0)].1, "C01,C13:get_mut returns the stored value");
+            *v = w;
+            addr = v as *mut u8 as *const u8;
+        }
+        None => {
+            check!(s, exp.is_none(), "C01,C13:get_mut is None iff key absent");
+        }
+    }
+    if let Some(i) = exp {
+        check!(s, addr == map.__verif_value_ptr(i), "C13,C14:get_mut hands out the value slot of the key's node");
+    }
+    check!(s, unchanged_except(s, &map, &nodes, exp.map(|i| (i, w))), "C13:write through get_mut changes exactly that entry");
+    check!(s, map.len() == count(&nodes, &r), "C04:get_mut keeps len");
+    cover!(s, exp.is_some() && q.1 == W, "hit full-length");
+    cover!(s, exp.is_none(), "miss");
+    std::mem::forget(map);
+}
+
+/// C02: get_lpm, get_lpm_prefix vs the longest covering entry
+pub fn lpm<S: Src, const N: usize>(s: &mut S) {
+    let (nodes, r) = pre::<S, N>(s);
+    let map = mk_map_simple(&nodes, &r);
+    let q = any_p(s);
+    let exp = crate::oracle::lpm(&nodes, &r, &q);
+    let got = map.get_lpm(&q).map(|(p, v)| (*p, *v));
+    check!(s, got == exp.map(|i| (nodes[i].0, nodes[i].1.unwrap())), "C02,C18:get_lpm returns the longest covering entry (stored bytes, value)");
+    let gp = map.get_lpm_prefix(&q).copied();
+    check!(s, gp == exp.map(|i| nodes[i].0), "C02,C18:get_lpm_prefix returns the longest covering prefix");
+    if let Some((p, _)) = got {
+        check!(s, covers(&p, &q), "C02:reported match covers the query");
+    }
+    cover!(s, exp.is_some() && q.1 == W, "full-length query with a match");
+    cover!(s, exp == Some(0), "answer is the zero-length entry");
+    cover!(s, exp.is_some() && same(&nodes[exp.unwrap()].0, &q), "query itself is stored");
+    cover!(s, exp.is_none() && q.1 > 0, "no covering entry");
+    // a value-less node strictly between the answer and q
+    let mut between = false;
+    let mut i = 0;
+    while i < N {
+        if r[i] && nodes[i].1.is_none() && i != 0 && covers(&nodes[i].0, &q) {
+            if let Some(e) = exp {
+                if nodes[i].0 .1 > nodes[e].0 .1 {
+                    between = true;
+                }
+            }
+        }
+        i += 1;
+    }
+    cover!(s, between, "value-less node between the answer and the query");
+    std::mem::forget(map);
+}
+
+/// C02/C13: get_lpm_mut
+pub fn lpm_mut<S: Src, const N: usize>(s: &mut S) {
+    let (nodes, r) = pre::<S, N>(s);
+    let mut map = mk_map_simple(&nodes, &r);
+    let q = any_p(s);
+    let w = s.u8();
+    let exp = crate::oracle::lpm(&nodes, &r, &q);
+    let mut addr: *const u8 = std::ptr::null();
+    let mut paddr: *const P = std::ptr::null();
+    match map.get_lpm_mut(&q) {
+        Some((p, v)) => {
+            check!(s, exp.is_some() && (*p, *v) == (nodes[exp.unwrap_or(0)].0, nodes[exp.unwrap_or(0)].1.unwrap_or(0)), "C02,C13:get_lpm_mut returns the longest covering entry");
+            *v = w;
+            addr = v as *mut u8 as *const u8;
+            paddr = p as *const P;
+        }
+        None => {
+            check!(s, exp.is_none(), "C02,C13:get_lpm_mut is None iff nothing covers the query");
+        }
+    }
+    if let Some(i) = exp {
+        check!(s, addr == map.__verif_value_ptr(i) && paddr == map.__verif_prefix_ptr(i), "C13,C14:get_lpm_mut hands out the slot of the matching node");
+    }
+    check!(s, unchanged_except(s, &map, &nodes, exp.map(|i| (i, w))), "C13:write through get_lpm_mut changes exactly that entry");
+    cover!(s, exp == Some(0), "answer is the zero-length entry");
+    cover!(s, exp.is_some() && exp != Some(0), "answer below the root");
+    cover!(s, exp.is_none(), "no match");
+    std::mem::forget(map);
+}
+
+/// C09: get_spm, get_spm_prefix vs the shortest covering entry
+pub fn spm<S: Src, const N: usize>(s: &mut S) {
+    let (nodes, r) = pre::<S, N>(s);
+    let map = mk_map_simple(&nodes, &r);
+    let q = any_p(s);
+    let exp = crate::oracle::spm(&nodes, &r, &q);
+    let got = map.get_spm(&q).map(|(p, v)| (*p, *v));
+    check!(s, got == exp.map(|i| (nodes[i].0, nodes[i].1.unwrap())), "C09,C18:get_spm returns the shortest covering entry");
+    let gp = map.get_spm_prefix(&q).copied();
+    check!(s, gp == exp.map(|i| nodes[i].0), "C09,C18:get_spm_prefix returns the shortest covering prefix");
+    cover!(s, exp == Some(0), "answer is the zero-length entry");
+    cover!(s, exp.is_some() && exp != Some(0) && !same(&nodes[exp.unwrap()].0, &q), "answer strictly between root and query");
+    cover!(s, exp.is_some() && same(&nodes[exp.unwrap()].0, &q), "only the query itself is stored");
+    cover!(s, exp.is_none(), "no covering entry");
+    std::mem::forget(map);
+}
+
+/// C09: cover(q) yields exactly the covering entries by increasing length; first = spm, last = lpm
+pub fn cover<S: Src, const N: usize>(s: &mut S) {
+    let (nodes, r) = pre::<S, N>(s);
+    let map = mk_map_simple(&nodes, &r);
+    let q = any_p(s);
+    let z = s.idx(N); // probe slot
+    let total = covering_count(&nodes, &r, &q);
+    let mut it = map.cover(&q);
+    let mut steps = 0usize;
+    let mut last: Option<P> = None;
+    let mut first: Option<P> = None;
+    let mut seen_z = 0usize;
+    let mut k = 0;
+    while k < N {
+        match it.next() {
+            Some((p, v)) => {
+                steps += 1;
+                check!(s, covers(p, &q), "C09:cover item covers the query");
+                let at = lookup(&nodes, &r, p);
+                check!(s, at.is_some() && nodes[at.unwrap_or(0)].0 == *p && nodes[at.unwrap_or(0)].1 == Some(*v), "C09,C18:cover item is a stored entry (stored bytes, value)");
+                if let Some(lp) = last {
+                    check!(s, lp.1 < p.1, "C09:cover yields strictly increasing lengths");
+                }
+                if first.is_none() {
+                    first = Some(*p);
+                }
+                last = Some(*p);
+                if at == Some(z) {
+                    seen_z += 1;
+                }
+            }
+            None => {}
+        }
+        k += 1;
+    }
+    check!(s, it.next().is_none(), "C09:cover is exhausted after at most N items and stays exhausted");
+    check!(s, it.next().is_none(), "C09:cover is fused");
+    check!(s, steps == total, "C09:cover yields every covering entry");
+    let z_cov = entry(&nodes, &r, z) && covers(&nodes[z].0, &q);
+    check!(s, seen_z == if z_cov { 1 } else { 0 }, "C09:each covering entry exactly once, nothing else");
+    check!(s, first == crate::oracle::spm(&nodes, &r, &q).map(|i| nodes[i].0), "C09:first cover item is the shortest match");
+    check!(s, last == crate::oracle::lpm(&nodes, &r, &q).map(|i| nodes[i].0), "C09,C02:last cover item is the longest match");
+    check!(s, map.get_lpm_prefix(&q).copied() == last, "C09,C02:get_lpm agrees with the last cover item");
+    cover!(s, total >= 2, "two or more covering entries");
+    cover!(s, total >= 1 && entry(&nodes, &r, 0), "zero-length entry covers");
+    cover!(s, total == 0, "nothing covers");
+    std::mem::forget(map);
+}
+
+/// C09: cover_keys / cover_values are the projections of cover
+pub fn cover_proj<S: Src, const N: usize>(s: &mut S) {
+    let (nodes, r) = pre::<S, N>(s);
+    let map = mk_map_simple(&nodes, &r);
+    let q = any_p(s);
+    let mut it = map.cover(&q);
+    let mut ik = map.cover_keys(&q);
+    let mut iv = map.cover_values(&q);
+    let mut k = 0;
+    while k <= N {
+        let a = it.next().map(|(p, v)| (*p, *v));
+        let b = ik.next().copied();
+        let c = iv.next().copied();
+        check!(s, a.map(|x| x.0) == b, "C09:cover_keys is the key projection of cover");
+        check!(s, a.map(|x| x.1) == c, "C09:cover_values is the value projection of cover");
+        k += 1;
+    }
+    cover!(s, covering_count(&nodes, &r, &q) >= 2, "two or more covering entries");
+    std::mem::forget(map);
+}
+
+/// set twins: contains / get / get_lpm / get_spm / cover / len on a PrefixSet
+pub fn set_obs<S: Src, const N: usize>(s: &mut S) {
+    let (nodes, r) = pre::<S, N>(s);
+    #[cfg(kani)]
+    {
+        crate::stubs::allow_alloc(0, N * std::mem::size_of::<(P, Option<()>, Option<usize>, Option<usize>)>());
+        crate::stubs::allow_alloc(1, N * 40);
+    }
+    let mut v: Vec<(P, Option<()>, Option<usize>, Option<usize>)> = Vec::with_capacity(N);
+    let mut i = 0;
+    while i < N {
+        v.push((nodes[i].0, nodes[i].1.map(|_| ()), nodes[i].2, nodes[i].3));
+        i += 1;
+    }
+    let set = prefix_trie::PrefixSet::__verif_from_map(prefix_trie::PrefixMap::__verif_from_raw(v, &[], 0, count(&nodes, &r), N, 0));
+    let q = any_p(s);
+    let at = lookup(&nodes, &r, &q);
+    check!(s, set.contains(&q) == at.is_some(), "C01:set contains");
+    check!(s, set.get(&q).copied() == at.map(|i| nodes[i].0), "C01,C18:set get returns the stored representation");
+    check!(s, set.get_lpm(&q).copied() == crate::oracle::lpm(&nodes, &r, &q).map(|i| nodes[i].0), "C02,C18:set get_lpm");
+    check!(s, set.get_spm(&q).copied() == crate::oracle::spm(&nodes, &r, &q).map(|i| nodes[i].0), "C09,C18:set get_spm");
+    check!(s, set.len() == count(&nodes, &r) && set.is_empty() == (count(&nodes, &r) == 0), "C04:set len/is_empty");
+    let mut it = set.cover(&q);
+    let mut steps = 0;
+    let mut last: Option<P> = None;
+    let mut k = 0;
+    while k <= N {
+        if let Some(p) = it.next() {
+            steps += 1;
+            check!(s, covers(p, &q) && lookup(&nodes, &r, p).is_some(), "C09:set cover item is a covering entry");
+            if let Some(lp) = last {
+                check!(s, lp.1 < p.1, "C09:set cover yields increasing lengths");
+            }
+            last = Some(*p);
+        }
+        k += 1;
+    }
+    check!(s, steps == covering_count(&nodes, &r, &q), "C09:set cover yields every covering entry");
+    cover!(s, at.is_some() && q.0 != nodes[at.unwrap()].0 .0, "hit with different host bits");
+    cover!(s, covering_count(&nodes, &r, &q) >= 2, "two covering entries");
+    std::mem::forget(set);
+}
